@@ -229,6 +229,11 @@ Proof.
   - intros (E & So & Wo & Hl & Ru). repeat split; cbn; auto; constructor.
 Qed.
 
+Theorem R_init s ss : R s ss -> R (st_init s) (sinit ss).
+Proof.
+  destruct s as [e m|o|o u|p u|u|o i u]; destruct ss as [m'|log su|p' su|su|log i' su]; cbn [R st_init sinit]; try tauto.
+Qed.
+
 (* ---------- NotFlushedPairs ---------- *)
 
 Lemma sm_put_length {V} (o : smap V) k e :
